@@ -29,13 +29,13 @@ SET = {"S1": {"retain_coefficients": True},
        "S2": {"retain_names": True, "sort_graded": True, "display_exponent": "**"}}
 BAD_ENTER = {"retain_coefficients": True, "sort_reverse": True, "no_such_option": 1}
 BAD_SET = {"display_inverse": False, "retain_names": False, "also_not_an_option": 0}
-EVENTS = ["E1", "E2", "E3", "EB", "XO", "XE", "XE2", "S1", "S2", "SB", "MU"]
+EVENTS = ["E1", "E2", "E3", "EB", "XO", "XE", "XE2", "XB", "S1", "S2", "SB", "MU"]
 MAXNEST = 3
 DEPTH = {"quick": 6, "thorough": 8}
 
 META = {
-    "rule": "every history over the 11-event alphabet (3 enters, bad enter, normal exit, exit by exception through "
-            "1 or 2 blocks, 2 set_options, bad set_options, mutate returned dicts) up to the depth bound with "
+    "rule": "every history over the 12-event alphabet (3 enters, bad enter, normal exit, exit by exception through "
+            "1 or 2 blocks, exit by a BaseException that is not an Exception, 2 set_options, bad set_options, mutate returned dicts) up to the depth bound with "
             "nesting<=3, executed on the real API; plus every edge of TLC's complete state graph of "
             "models/Options.tla replayed on the real API. A state is distinct by (options in force, stack of "
             "snapshots); non-trivial = at least one open block or one modified option",
@@ -50,6 +50,10 @@ class Boom(Exception):
     pass
 
 
+class BoomBase(BaseException):
+    """an exception that is not an Exception (like KeyboardInterrupt / SystemExit / GeneratorExit)"""
+
+
 class Unwind(BaseException):
     pass
 
@@ -57,7 +61,7 @@ class Unwind(BaseException):
 def enabled(ev, depth):
     if ev in ("E1", "E2", "E3", "EB"):
         return depth < MAXNEST
-    if ev in ("XO", "XE"):
+    if ev in ("XO", "XE", "XB"):
         return depth >= 1
     if ev == "XE2":
         return depth >= 2
@@ -69,7 +73,7 @@ def model_step(cur, stack, ev):
     if ev in ENTER:
         stack = stack + [dict(cur)]
         cur = dict(cur, **ENTER[ev])
-    elif ev in ("XO", "XE"):
+    elif ev in ("XO", "XE", "XB"):
         cur, stack = dict(stack[-1]), stack[:-1]
     elif ev == "XE2":
         cur, stack = dict(stack[-2]), stack[:-2]
@@ -162,8 +166,13 @@ class Interp:
                     with numpoly.global_options(**ENTER[ev]) as inner:
                         self.observe(dict(inner))
                         pending = self.block(inner)
+                        if pending == "base":
+                            pending = 0
+                            raise BoomBase()
                         if pending:
                             raise Boom(pending)
+                except BoomBase:
+                    pass    # left exactly this block by a BaseException
                 except Boom as boom:
                     pending = boom.args[0] - 1
                     if pending:
@@ -176,6 +185,9 @@ class Interp:
             elif ev == "XE":
                 self.cur, self.stack = model_step(self.cur, self.stack, ev)
                 return 1
+            elif ev == "XB":
+                self.cur, self.stack = model_step(self.cur, self.stack, ev)
+                return "base"
             elif ev == "XE2":
                 self.cur, self.stack = model_step(self.cur, self.stack, ev)
                 return 2
@@ -216,7 +228,7 @@ def depth_after(hist):
             return None
         if ev in ENTER:
             d += 1
-        elif ev in ("XO", "XE"):
+        elif ev in ("XO", "XE", "XB"):
             d -= 1
         elif ev == "XE2":
             d -= 2
@@ -236,13 +248,13 @@ def extensions(prefix, maxdepth):
             continue
         for ev in EVENTS:
             if enabled(ev, d):
-                nd = d + (1 if ev in ENTER else -1 if ev in ("XO", "XE") else -2 if ev == "XE2" else 0)
+                nd = d + (1 if ev in ENTER else -1 if ev in ("XO", "XE", "XB") else -2 if ev == "XE2" else 0)
                 stack.append((h + [ev], nd))
 
 
 # ---- TLC binding ---------------------------------------------------------------------------
 LABEL2EV = {"Enter(1)": "E1", "Enter(2)": "E2", "Enter(3)": "E3", "EnterBad": "EB", "ExitOk": "XO",
-            "ExitExc": "XE", "ExitExc2": "XE2", "Set(1)": "S1", "Set(2)": "S2", "SetBad": "SB", "Mutate": "MU"}
+            "ExitExc": "XE", "ExitExc2": "XE2", "ExitBase": "XB", "Set(1)": "S1", "Set(2)": "S2", "SetBad": "SB", "Mutate": "MU"}
 
 
 def tla_state(text):
